@@ -49,7 +49,9 @@ def append_only_pred(case, out):
 def run(rep):
     tier, rng = rep.tier, Rng(rep.seed)
     broken = []
-    files = prop_files()
+    import rust2coq
+    translator, gen_files = rust2coq.step(["numbers", "justification"], ["theories/Properties/C02Gen.v"], broken)
+    files = prop_files() + gen_files
     po = common.proof_obligations(files)
     po["files"] = files
     if not po["ok"]:
@@ -59,9 +61,12 @@ def run(rep):
     sim_cov = None
     import sim_gen as SG
     S = SG.run_sim_cases(rep, "C01", {"prefix_ops": 100, "rounds": 8, "shard": 2}, 8 if tier == "quick" else 250, rng.fork(), broken)
+    cluster_fail = []
     for mfail in S["mon_fail"]:
         if mfail["monitor"] in ("C01", "C02", "C03"):
-            R["pred_fail"].append({"case": mfail.get("case"), "meta": mfail.get("meta"), "failed": "cluster simulation, %s monitor: %s" % (mfail["monitor"], mfail["failed"])})
+            cluster_fail.append({"case": mfail.get("case"), "meta": mfail.get("meta"), "failed": "cluster simulation, %s monitor: %s" % (mfail["monitor"], mfail["failed"])})
+    # a disagreement in the cluster is the primary replay
+    R["pred_fail"] = cluster_fail + R["pred_fail"]
     sim_cov = {"schedules": len(S["cases"]), "mismatches": len(S["mm"]),
                "monitor_failures": len([m for m in S["mon_fail"] if m["monitor"] in ("C01", "C02", "C03")]),
                "what": "N real replicas vs Model/Sim.v on adversarial schedules (partitions, equivocating Byzantine leader, forged/stale votes, crashes, restarts, sync) + synchronous suffix; monitors: all nodes' committed payloads agree per block number, consecutive stores, one certified payload per number, one commit vote per key and view"}
@@ -69,6 +74,7 @@ def run(rep):
                "single-replica scenarios as in C05 plus crashes at persist points (both outcomes) and restarts: outcome, ordered effects and snapshot compared per step; monitors: blocks handed to storage are consecutive, never replaced; cluster simulation (when present): all nodes' committed payloads agree per block number")
     if sim_cov:
         rep.cov["cluster_simulation"] = sim_cov
+    rep.cov["translator"] = translator
     rep.cov["partial"] = ("agreement is proved for the abstract vote-history model (Properties/C01Abs.v: abs_certificate_unique, I1-I3) "
                           + ("and for the concrete protocol model through the refinement (Properties/C01.v)" if len(files) > 1 else
                              "; the refinement of the concrete replica model to it is in progress — until then the link is the replica correspondence")
